@@ -54,16 +54,17 @@ func exploreScanToken(p *Prog) *lexRun {
 // checkLexPrimitives: bodies of the cursor primitives against reference words.
 func checkLexPrimitives(p *Prog, l *Ledger, rule string) bool {
 	q := regexp.QuoteMeta
+	// the reference is stated on what a primitive tests, stores and returns — with whatever helpers it calls inlined
 	specs := map[string]map[string]string{
 		"isAtEnd": {"test": q("return(!(s.current < len(s.source)))")},
-		"peek": {"end": `call\(lexer\.\(\*Scanner\)\.isAtEnd, s\) ; test\(r\)→true ; return\(0\)`,
-			"rune": `call\(lexer\.\(\*Scanner\)\.isAtEnd, s\) ; test\(r\)→false ; return\(s\.source\[s\.current\]\)`},
+		"peek": {"end": q("test((s.current < len(s.source)))→false ; return(0)"),
+			"rune": q("test((s.current < len(s.source)))→true ; return(s.source[s.current])")},
 		"peekNext": {"end": q("test(((s.current + 1) < len(s.source)))→false ; return(0)"),
 			"rune": q("test(((s.current + 1) < len(s.source)))→true ; return(s.source[(s.current + 1)])")},
 		"advance": {"step": q("fieldstore(s.current, (s.current + 1)) ; return(s.source[s.current])")},
-		"match": {"end": `call\(lexer\.\(\*Scanner\)\.isAtEnd, s\) ; test\(r\)→true ; return\(false\)`,
-			"differ": `call\(lexer\.\(\*Scanner\)\.isAtEnd, s\) ; test\(r\)→false ; test\(\(a1 == s\.source\[s\.current\]\)\)→false ; return\(false\)`,
-			"same":   `call\(lexer\.\(\*Scanner\)\.isAtEnd, s\) ; test\(r\)→false ; test\(\(a1 == s\.source\[s\.current\]\)\)→true ; fieldstore\(s\.current, \(s\.current \+ 1\)\) ; return\(true\)`},
+		"match": {"end": q("test((s.current < len(s.source)))→false ; return(false)"),
+			"differ": q("test((s.current < len(s.source)))→true ; test((a1 == s.source[s.current]))→false ; return(false)"),
+			"same":   q("test((s.current < len(s.source)))→true ; test((a1 == s.source[s.current]))→true ; fieldstore(s.current, (s.current + 1)) ; return(true)")},
 	}
 	okAll := true
 	var names []string
@@ -78,31 +79,15 @@ func checkLexPrimitives(p *Prog, l *Ledger, rule string) bool {
 			okAll = false
 			continue
 		}
-		m := NewInterpModel(p, "Scanner."+n)
-		m.MainMode = true
-		var params []AV
-		for i := range fn.Params {
-			// positional names: the reference words must not depend on how the source names its parameters
-			if i == 0 {
-				params = append(params, Sym("s"))
-			} else {
-				params = append(params, Sym(fmt.Sprintf("a%d", i)))
-			}
-		}
-		m.Explore(fn, params, nil)
 		l.Funcs[p.FuncKey(fn)] = true
-		ws, ok := m.G.Words(100)
-		if !ok {
+		words := primitiveWords(p, fn)
+		if words == nil {
 			l.Undecide(rule, "Scanner."+n, p.Pos(fn.Pos()), "paths not enumerable")
 			okAll = false
 			continue
 		}
-		var words []string
-		for _, w := range ws {
-			words = append(words, normName(wordString(w)))
-		}
 		before := len(l.Obls)
-		matchWordSet(l, rule, "Scanner."+n, p.Pos(fn.Pos()), uniqStrings(sortStrings(words)), specs[n])
+		matchWordSet(l, rule, "Scanner."+n, p.Pos(fn.Pos()), words, specs[n])
 		for _, o := range l.Obls[before:] {
 			if o.Status != Discharged {
 				okAll = false
@@ -113,6 +98,44 @@ func checkLexPrimitives(p *Prog, l *Ledger, rule string) bool {
 		}
 	}
 	return okAll
+}
+
+// primitiveWords: the behaviour of a cursor primitive as event words with every helper it calls inlined (so isAtEnd(),
+// or a shared peekAt(offset), leaves no trace of its own: only the tests on cursor and length, the stores and the result).
+func primitiveWords(p *Prog, fn *ssa.Function) []string {
+	m := NewInterpModel(p, "Scanner."+fnName(fn))
+	m.EmitTests = true
+	m.KeepAsEvent = func(c *ssa.Function) bool { return false }
+	var params []AV
+	for i := range fn.Params {
+		if i == 0 {
+			params = append(params, Sym("s"))
+		} else {
+			params = append(params, Sym(fmt.Sprintf("a%d", i)))
+		}
+	}
+	m.Explore(fn, params, nil)
+	ws, ok := m.G.Words(100)
+	if !ok || len(m.Undecided) > 0 {
+		return nil
+	}
+	var words []string
+	for _, w := range ws {
+		// a test repeated on the path with the same outcome (a helper re-checking what its caller established) adds nothing
+		var parts []string
+		seen := map[string]bool{}
+		for _, part := range strings.Split(normName(wordString(w)), " ; ") {
+			if strings.HasPrefix(part, "test(") {
+				if seen[part] {
+					continue
+				}
+				seen[part] = true
+			}
+			parts = append(parts, part)
+		}
+		words = append(words, strings.Join(parts, " ; "))
+	}
+	return uniqStrings(sortStrings(words))
 }
 
 var oneCharTokens = map[rune]string{'(': "LEFT_PAREN", ')': "RIGHT_PAREN", '{': "LEFT_BRACE", '}': "RIGHT_BRACE", '[': "LEFT_BRACKET", ']': "RIGHT_BRACKET",
@@ -423,27 +446,7 @@ func checkMunchTable(p *Prog, l *Ledger, g *Graph) {
 // checkKeywords: the keyword table against README.
 func checkKeywords(p *Prog, l *Ledger, g *Graph) {
 	rule := "C09/S5-keywords"
-	names := p.tokenNames()
-	got := map[string]string{}
-	if pk := p.Pkg("lexer"); pk != nil && pk.Func("init") != nil {
-		instrsOf(pk.Func("init"), func(in ssa.Instruction) {
-			mu, ok := in.(*ssa.MapUpdate)
-			if !ok {
-				return
-			}
-			k, ok1 := mu.Key.(*ssa.Const)
-			v, ok2 := constInt(mu.Value)
-			// the keyword table is the table of *words*: string keys (other tables of the scanner, e.g. one from runes to
-			// token types, are not keyword tables)
-			if mt, isMap := mu.Map.Type().Underlying().(*types.Map); !isMap || !types.Identical(mt.Key().Underlying(), types.Typ[types.String]) {
-				return
-			}
-			if ok1 && ok2 && k.Value != nil {
-				s, _ := strconv.Unquote(k.Value.ExactString())
-				got[norm.NFC.String(s)] = names[v]
-			}
-		})
-	}
+	got := p.KeywordTable()
 	// any other writer of the table?
 	for _, fn := range p.ModuleFuncs() {
 		if strings.Contains(fn.Synthetic, "package initializer") {
@@ -516,7 +519,8 @@ func checkKeywords(p *Prog, l *Ledger, g *Graph) {
 				continue
 			}
 			a := e.Ev.Args[0]
-			if strings.HasPrefix(a, "global:lexer.keywords[") || a == fmt.Sprint(idTok) {
+			isLookup := strings.HasPrefix(a, "global:lexer.keywords[") || strings.HasPrefix(a, "table:lexer.")
+			if isLookup || a == fmt.Sprint(idTok) {
 				// the longest piece: a word ends only where the next rune cannot continue it
 				nWord++
 				if e.Ev.KV["at-end"] != "T" && e.Ev.KV["after-may"] != "" {
@@ -524,11 +528,19 @@ func checkKeywords(p *Prog, l *Ledger, g *Graph) {
 					munchPos = e.Ev.Pos
 				}
 			}
-			if strings.HasPrefix(a, "global:lexer.keywords[") {
-				if a == "global:lexer.keywords[conv:string(s.source[s.start:s.current])]" {
+			if isLookup {
+				if strings.HasSuffix(a, "[conv:string(s.source[s.start:s.current])]") {
 					okLookup = true
 				} else {
 					badTok = a
+				}
+				if strings.HasPrefix(a, "table:") {
+					// the table is a function: its fall-through value is the fallback
+					if fn := p.Func(strings.TrimPrefix(a[:strings.Index(a, "[")], "table:")); fn != nil {
+						if ws := p.WordSwitch(fn); ws != nil && ws.Default.K == KInt && ws.Default.I == idTok {
+							okFallback = true
+						}
+					}
 				}
 			}
 			if a == fmt.Sprint(idTok) {
